@@ -252,6 +252,8 @@ def check_cg(ctx, c):
                 c["kind"], "identity" if cgmap == list(range(n)) else "pairs", c["script"]["seed"], rep + 1, len(a), len(b)), key="cg:repeat")
 
 
+RULE = RULE + " " + ("Since seeded round 5 facet coarse_grained: simulate_script(script, engine, cgmap = identity or pairs) on reflecting grids, three times with the script's seed, bit-identical.")
+
 FACETS = [
     Facet("schedules", check_sched, strategy=strat_sched, examples=(320, 8000), shards=(16, 16), setup=setup, native=True),
     Facet("stored_script", check_stored, strategy=strat_stored, examples=(300, 6000), shards=(4, 16), setup=setup, native=True),
